@@ -84,4 +84,51 @@ Definition check (c : Z * Z * bool * list (Z * Z)) : Z := match c with (nref, nq
         return '(%s, %s, %s, %s)' % (z(case['nref']), z(case['nqry']), cb(case['rev']), clist('(%s,%s)' % (z(a), z(b)) for a, b in case['pairs']))
 
 
-STREAMS = [RowStream(), Files(), Candidates(), Records()]
+# ---- in process: first pass -> fragments -> second pass -> join on dense lattices (the multi-pass chain of C07's crash search): the rows the
+# join produces from coincidentally matching labels around the junction; model correspondence for the join + validity of every row
+from . import C07 as _c07
+
+
+def _valid(pairs, rev, nref, nqry):
+    if not pairs:
+        return 'no pairs'
+    if any(not (1 <= a <= nref and 1 <= b <= nqry) for a, b in pairs):
+        return 'a label that does not exist'
+    for (a, b), (c, d) in zip(pairs, pairs[1:]):
+        if not a < c:
+            return 'reference labels not strictly ascending'
+        if not (d < b if rev else b < d):
+            return 'query labels not strictly %s' % ('descending' if rev else 'ascending')
+    return None
+
+
+class MultiJoin(_c07.MultiCrash):
+    name = 'multi_join'
+    quick_n, thorough_n = 2500, 16000
+
+    def oracle(self, case, out):
+        errs = []
+        nref, nqry = len(case['ref']), len(case['qry'])
+        parts = [out['row1']] if 'row1' in out else []
+        parts += out.get('rows2', [])
+        for kind, rows in (('separate', out.get('separate', [])), ('second-pass', out.get('rows2', [])), ('first-pass', parts[:1])):
+            for r in rows:
+                why = _valid([tuple(p) for p in r[8]], bool(r[6]), nref, nqry)
+                if why and r[8]:
+                    errs.append('%s row is not a valid matching (%s): %s' % (kind, why, r[8]))
+        union = set(tuple(p) for r in parts for p in r[8])
+        for r in out.get('joined', []):
+            ps = [tuple(p) for p in r[8]]
+            why = _valid(ps, bool(r[6]), nref, nqry)
+            if why and ps:
+                if set(ps) <= union and all(_valid([tuple(p) for p in q[8]], bool(q[6]), nref, nqry) is None for q in parts):
+                    errs.append('[JOINED-RECORD: both parts valid, pairs a subset of their union] joined row is not a valid matching (%s): %s' % (why, ps))
+                else:
+                    errs.append('joined row is not a valid matching (%s) and is not explained by its parts: %s' % (why, ps))
+        return errs[:4]
+
+    def finding(self, case, out, viol):
+        return 'F10' if viol.startswith('[JOINED-RECORD:') else None
+
+
+STREAMS = [RowStream(), Files(), Candidates(), Records(), MultiJoin()]
